@@ -223,6 +223,18 @@ def rowform(e):
     return mapx(e, f)
 
 
+def renorm(e):
+    """normal form again after a rewrite that replaced operands inside flattened sums / products (their order is by operand)"""
+    def f(n):
+        if n[0] == "nary" and n[1] in COMM:
+            acc = n[2][0]
+            for x in n[2][1:]:
+                acc = ("bin", n[1], acc, x)
+            return norm(acc)
+        return None
+    return mapx(e, f)
+
+
 def posform(e):
     """after rowform: name the position of each loop by one symbol, so that `xs[i]` with i walking the positions and the element
     `x` bound by `for x in xs` / `for x, y in zip(xs, ys)` are the same expression  ('sub', xs, ('pos', loop))"""
